@@ -8,9 +8,11 @@ import (
 	"math"
 	"net/http"
 	"net/http/httptest"
+	"os"
 	"reflect"
 	"strconv"
 	"strings"
+	"syscall"
 	"time"
 
 	"github.com/nbutton23/zxcvbn-go"
@@ -240,6 +242,45 @@ func runC17(em *vEmitter, r *vRng) {
 					c.Violation = viol
 				}
 				em.emit(c)
+			}
+			x.ms.cleanup()
+		}
+		// the policy is part of the agent, not of the store configuration: it is still enforced after any
+		// number of reload signals (same configuration re-read, new default, a broken file in between)
+		{
+			x := newC17Agent(r, cond, "")
+			good := mYaml(x.ms.base, 1, x.ms.params)
+			for ri, doc := range []string{good, "basedir: [broken\n", mYaml(x.ms.base, 2, x.ms.params), good} {
+				os.WriteFile(x.ms.cfgfile, []byte(doc), 0600)
+				syscall.Kill(os.Getpid(), syscall.SIGHUP)
+				time.Sleep(60 * time.Millisecond)
+				x.api.List()
+				for wi, w := range []struct{ u, pw string }{{fmt.Sprintf("rel%d", ri), "123456"}, {"alice", "password"}, {fmt.Sprintf("rel%dok", ri), "Tr0ub4dor&3 reload " + strconv.Itoa(ri)}} {
+					verdict, _ := pol.Check(w.pw, w.u)
+					before := x.ms.snapshotTerm()
+					var err error
+					if w.u == "alice" {
+						err = x.api.Update(w.u, w.pw)
+					} else if wi == 0 {
+						// through the web API with the admin session obtained before the reloads
+						b, _ := json.Marshal(map[string]interface{}{"session": x.adminTok, "username": w.u, "password": w.pw, "admin": false})
+						rec := httptest.NewRecorder()
+						x.mux.ServeHTTP(rec, httptest.NewRequest("POST", "/api/add", strings.NewReader(string(b))))
+						if rec.Code != http.StatusOK {
+							err = fmt.Errorf("status %d", rec.Code)
+						}
+					} else {
+						err = x.api.Add(w.u, w.pw, false)
+					}
+					after := x.ms.snapshotTerm()
+					c := vCase{Prop: "C17", Kind: "path", Class: "path/after-reload", Nontrivial: true,
+						Coq:   fmt.Sprintf("PathCase %s %s %s", cB(verdict), cB(err == nil), cB(before != after)),
+						Human: map[string]interface{}{"reloads_so_far": ri + 1, "condition": cond, "user": w.u, "pw": w.pw, "policy_ok": verdict, "acknowledged": err == nil, "changed": before != after}}
+					if verdict && err != nil {
+						c.Violation = fmt.Sprintf("after %d reload signal(s) a password that satisfies %q was refused: %v", ri+1, cond, err)
+					}
+					em.emit(c)
+				}
 			}
 			x.ms.cleanup()
 		}
